@@ -72,10 +72,10 @@ func sweepC19(tier string) [][]uint32 {
 
 // memStream is the in-memory transport for one client.
 type memStream struct {
-	s        *simrt.Sim
-	reqs     []*pb.SessionRequest
-	pos      int
-	sent     []*pb.SessionResponse
+	s         *simrt.Sim
+	reqs      []*pb.SessionRequest
+	pos       int
+	sent      []*pb.SessionResponse
 	recvErrAt int // index at which Recv fails (-1 never)
 	sendErrAt int
 }
